@@ -317,4 +317,5 @@ var initWhitelist = map[string]bool{
 	"internal/itoa": true, "io/ioutil": true, "unicode/utf16": true, "hash": true, "hash/crc32": false,
 	"crypto/subtle": true, "crypto/cipher": true, "encoding/base64": true, "encoding/hex": true,
 	"internal/oserror": true, "io/fs": false, "time": true, "sync": true, "sync/atomic": true,
+	"compress/flate": true,
 }
